@@ -59,7 +59,8 @@ func element(r *core.Rand) string {
 		}
 		return a + ":80%x"
 	case 9:
-		return r.Pick([]string{" ", "\t", "  ", " ", " ", "　", "\u0085", " \t"}) + a + r.Pick([]string{"", " ", "\t ", " ", " "})
+		return r.Pick([]string{" ", "\t", "  ", "\u00a0", "\u2003", "\u3000", "\u0085", " \t", "\u1680", "\u205f", "\u2028", "\u202f", "\u200a", "\u200b", "\xe2\x80", "\v", "\f"}) +
+			a + r.Pick([]string{"", " ", "\t ", "\u00a0", "\u2003", "\u2029", "\u3000 ", "\xe2\x80\x80\x80", "\x85", "\xa0"})
 	case 10:
 		// space inside / before a bracketed or port-bearing form
 		if isV6(a) {
@@ -167,6 +168,16 @@ func genCase(r *core.Rand) *kase {
 	}
 	// ---- connection
 	k.remote = remoteAddr(r)
+	if sp, err := parsePrefixes(k.srvT); err == nil && len(sp) > 0 && r.Chance(2, 5) {
+		// bias towards a peer inside the server's trusted ranges
+		for try := 0; try < 20; try++ {
+			cand := remoteAddr(r)
+			if pi := refPeer(cand); pi.addrOK && anyContains(sp, pi.addr) {
+				k.remote = cand
+				break
+			}
+		}
+	}
 	k.tls = r.Chance(1, 2)
 	k.host = r.Pick(hostPool)
 	// ---- request header fields, wire order
@@ -219,7 +230,7 @@ func genCase(r *core.Rand) *kase {
 }
 
 func (p *prop) Generate(rng *core.Rand, tier string, emit func(string)) {
-	n := 12000
+	n := 30000
 	switch tier {
 	case "thorough":
 		n = 250000
